@@ -1,8 +1,20 @@
 import StunVerif.Props.C16
 import StunVerif.Props.C16Resp
+import StunVerif.Props.SrcFnPolice
+import StunVerif.Props.SrcFnIter
 #print axioms StunVerif.C16.police_eq_spec
 #print axioms StunVerif.C16.unknown_list_bounds
 #print axioms StunVerif.C16.resp_attrs
 #print axioms StunVerif.C16.comprehension_iff
 #print axioms StunVerif.C16.unknown_resp_shape
 #print axioms StunVerif.C16.bad_resp_shape
+#print axioms StunVerif.SrcFnPolice.src_comprehensionRequired
+#print axioms StunVerif.SrcFnPolice.any_eq_contains
+#print axioms StunVerif.SrcFnPolice.src_checkAttributeTypes
+#print axioms StunVerif.SrcFnIter.drop_drop_len
+#print axioms StunVerif.SrcFnIter.iterGo_succ_ok
+#print axioms StunVerif.SrcFnIter.iterGo_succ_err
+#print axioms StunVerif.SrcFnIter.next_spec
+#print axioms StunVerif.SrcFnIter.collect_eq
+#print axioms StunVerif.SrcFnIter.src_iter
+#print axioms StunVerif.SrcFnIter.src_iter_more_fuel
